@@ -129,7 +129,7 @@ def prior_terms(model, B, mb):
     return total
 
 
-def dense_objective(model, X, y, obj, mb=()):
+def dense_objective(model, X, y, obj, mb=(), with_priors=True):
     fam = model.fam
     mt = fam.startswith("multitask")
     prior = model.forward(X)
@@ -159,7 +159,7 @@ def dense_objective(model, X, y, obj, mb=()):
         ll = torch.stack(terms, -1).sum(-1)
     else:
         ll = dense.gauss_logpdf(yv, mean, C)
-    total = ll + prior_terms(model, B, mb)
+    total = ll + (prior_terms(model, B, mb) if with_priors else 0.0)
     # added loss terms: an independent walk over the module tree (every registered term object once), not the library's own traversal;
     # the inducing-point term is written out: -0.5 tr(K_xx - Q_xx) / sigma^2
     seen = set()
@@ -230,7 +230,21 @@ def run_cell(cell, seed):
         return {"fails": fails, "sig": "shape", "features": feats}
     ok, msg = util.close(val, ref, 1e-9, 1e-9)
     if not ok:
-        fails.append({"sub": "value", "symptom": f"objective != dense definition: err={msg}", "detail": f"got {val.detach().reshape(-1)[:4].tolist()} want {ref.detach().reshape(-1)[:4].tolist()}", "features": feats})
+        # characterise a known wrong value: the prior terms added with their leading dims aligned from the LEFT of the batch shape
+        note = ""
+        try:
+            if cell["priors"] and len(B):
+                nopri, _ = dense_objective(model2, X2, y2, cell["obj"], tuple(cell["mb"]), with_priors=False)
+                n_obs = (model2.forward(X2).event_shape.numel() if cell["obj"] != "loo" else y2.shape[-1])
+                alt = nopri.detach().clone() * n_obs
+                for _, mod_, prior_, clos_, _ in model2.named_priors():
+                    lp = prior_.log_prob(clos_(mod_)).detach()
+                    alt = alt + lp.view(*lp.shape[: len(B)], -1).sum(-1)
+                if util.close(val.detach(), alt / n_obs, 1e-9, 1e-9)[0]:
+                    note = " (= prior terms aligned from the left of the batch shape)"
+        except Exception:
+            pass
+        fails.append({"sub": "value", "symptom": f"objective != dense definition: err={msg}{note}", "detail": f"got {val.detach().reshape(-1)[:4].tolist()} want {ref.detach().reshape(-1)[:4].tolist()}", "features": feats})
     # gradients w.r.t. every raw parameter, for a generic weighting of the batch elements (so cross-talk cannot cancel)
     w = (util.rand(util.gen(seed, "c02w"), *B) + 0.5) if len(B) else torch.tensor(1.0, dtype=F64)
     try:
